@@ -144,11 +144,11 @@ Section PowellProofs.
   Qed.
 
   Theorem pw_run_ok : forall ops sc,
-    Forall (clean_op N _ pw_ok_in true) ops -> P_pw (fst sc) (snd sc) ->
+    Forall (clean_op N _ pw_ok_in true false) ops -> P_pw (fst sc) (snd sc) ->
     P_pw (fst (run N inf _ _ (pw_algo N inf) sc ops)) (snd (run N inf _ _ (pw_algo N inf) sc ops)).
   Proof.
-    apply (run_joint N inf _ _ (pw_algo N inf) P_pw pw_ok_in true).
-    - intros s s' c Ec Es Eu (Hc & Hh & Hx). split; [|split].
+    apply (run_joint N inf _ _ (pw_algo N inf) P_pw pw_ok_in true false).
+    - intros s s' c Ec Es Eu _ (Hc & Hh & Hx). split; [|split].
       + rewrite (Eu eq_refl). exact Hc.
       + rewrite Es. intros Hne. eapply honestfix_frame; [exact Ec|]. apply Hh. exact Hne.
       + rewrite Es. exact Hx.
@@ -177,7 +177,7 @@ Section PowellProofs.
   Qed.
 
   Theorem pw_reported_best : forall ops sc,
-    Forall (clean_op N _ pw_ok_in true) ops -> P_pw (fst sc) (snd sc) ->
+    Forall (clean_op N _ pw_ok_in true false) ops -> P_pw (fst sc) (snd sc) ->
     let r := run N inf _ _ (pw_algo N inf) sc ops in
     stepmon N (fst r) <> [] ->
     honest N (fst r) (pw_best N inf (snd r)) /\ cons0 (fst (pw_best N inf (snd r))) = fst (pw_best N inf (snd r)).
@@ -237,11 +237,11 @@ Section PowellHistory.
   Qed.
 
   Theorem pw_history_ok : forall ops sc,
-    Forall (clean_op N _ (pw_ok_in N) false) ops -> H_pw (fst sc) (snd sc) ->
+    Forall (clean_op N _ (pw_ok_in N) false false) ops -> H_pw (fst sc) (snd sc) ->
     H_pw (fst (run N inf _ _ A sc ops)) (snd (run N inf _ _ A sc ops)).
   Proof.
-    apply (run_joint N inf _ _ A H_pw (pw_ok_in N) false).
-    - intros s s' c Ec Es _ (Hx & Hl & Hh). unfold H_pw, energy_history in *. rewrite Es. auto.
+    apply (run_joint N inf _ _ A H_pw (pw_ok_in N) false false).
+    - intros s s' c Ec Es _ _ (Hx & Hl & Hh). unfold H_pw, energy_history in *. rewrite Es. auto.
     - intros s c i Hi H. cbn [a_decorate pw_algo]. unfold pw_decorate. unfold pw_ok_in in Hi. rewrite Hi. exact H.
     - intros s c i _ H. cbn [a_nested a_step pw_algo]. apply pw_step_hist. exact H.
     - intros s c (Hx & Hl & Hh). cbn [a_finalize pw_algo]. unfold pw_finalize.
